@@ -22,7 +22,7 @@ class Prop:
             "several peers from a small key pool incl. the device's own public key, the zero key; prefixes with host bits "
             "moving between peers; '-' removal; replace_*; remove/update_only in every position; private-key changes onto "
             "peer keys; blank lines, missing '=', unknown and misplaced keys, CRLF; busy ports / failing marks; a fifth "
-            "of them drawn for IpcHandle framing); after EVERY operation errno and the canonicalised get are compared with "
+            "of them drawn for IpcHandle framing, a fifth for ONE IpcHandle connection carrying all operations of the sequence, failing ones included, each status line compared on its own); after EVERY operation errno and the canonicalised get are compared with "
             "model (kind 1) and specification (kind 2) and the get text is replayed on a fresh device (roundtrip); "
             "non-trivial = at least 3 operations, a peer configured and (an error or two peers); distinct by content hash")
     assumptions = ["fewer than 65536 peers (NewPeer's MaxPeers error is not modelled)",
@@ -122,7 +122,9 @@ class Prop:
         if "hang" in f:
             return "ipcset-hang-" + f["hang"]
         if "anomaly" in f:
-            return "get-anomaly-" + f["anomaly"][0].split(" ", 1)[-1].replace(" ", "_")
+            tok = f["anomaly"][0].split()
+            what = tok[1] if len(tok) > 1 and tok[0].startswith("op") and tok[0][2:].isdigit() else tok[0]
+            return "get-anomaly-" + what.rstrip(":")
         if "obs" not in case:
             # a shrunk candidate carries no observations: run it again and take its own first failure
             fs = [g for g in self.run_cases([case]) if g["kind"] == 2]
